@@ -162,7 +162,7 @@ def gen_pair(rng) -> tuple[float, float, str]:
 
 
 def gen_cases(tier: str, seed: int):
-    n_batches = {"quick": 64, "thorough": 640}[tier]
+    n_batches = {"quick": 64, "thorough": 4000}[tier]
     kinds = ["log1p_exp", "log1m_exp", "log_sum_exp", "log_diff_exp", "lrf_binary", "lrf_mixed", "lrf_compare",
              "lrf_iadd"]
     yield {"kind": "directed", "seed": [seed, -1], "n": 1}
